@@ -162,7 +162,13 @@ fn positive<B: FA, H: HA<B>>(k: &Kit<H>, idx: &[usize], flags: &Flags, obs: &mut
     obs.comparisons += 1;
     if to_op(&re) == op && re.serialize_nodes() == proof.serialize_nodes() {
         // identical to the honest opening, which verified above
+        if !sorted {
+            obs.label("from_paths-unsorted=same-as-prove_batch");
+        }
         return Ok(());
+    }
+    if !sorted {
+        obs.label("from_paths-unsorted=differs");
     }
     let v = catch(|| MerkleTree::<H>::verify_batch(&root, idx, &re)).map_err(|p| fail_panic(pfx, &p))?;
     ensure!(
@@ -921,7 +927,7 @@ impl SubCheck for SampledNeg {
         "sampled-mutations".into()
     }
     fn cases(&self, tier: Tier) -> u64 {
-        tier.pick(40_000, 800_000)
+        tier.pick(25_000, 600_000)
     }
     fn watchdog_secs(&self) -> u64 {
         60
